@@ -5,6 +5,7 @@ import AlgoVerif.Proofs.C16Instances
 import AlgoVerif.Proofs.C16History
 import AlgoVerif.Proofs.C16Store
 import AlgoVerif.Proofs.C16HeapSim
+import AlgoVerif.Proofs.C16Format
 import AlgoVerif.Generated.C16
 /-!
 # C16 — property theorems (helper lemmas in `Proofs/C16*.lean`)
@@ -540,3 +541,209 @@ example : ∃ Ps g', exUnordered.partitions revShuffle () = .ok (Ps, g') ∧
 example : ∃ Ps g', exUnordered.partitions revShuffle () = .ok (Ps, g') ∧ Ps.members.length = 5 := by
   obtain ⟨Ps, g', h, _, _, _, hn, _⟩ := C16_partitions_exact revShuffle_law exUnordered_wf ()
   exact ⟨Ps, g', h, hn⟩
+
+/-! ## the `format` field (`New…WithFormat`, `String()`)
+
+`Model/C16X.lean` adds the third field of the Go structs — `format`, an arbitrary function from the member slice
+to a string, read only by `String()` — to the set objects (`FmtSet`), and to the register machine the
+constructors with initial values and a format and `String()` (`stepX`, `runX`).  The property does not mention
+`String()`; what it needs is that the constructors with a format build the same sets and that the format can
+never influence a member slice.  That is what is proved here, together with where the format goes. -/
+
+/-- `NewWithFormat` / `NewStableWithFormat` / `NewSortedWithFormat(callback, format, vals...)` with any format
+function and any initial values (repeats too) builds the very set object `New` / `NewStable` / `NewSorted(callback,
+vals...)` builds — a valid set denoting the values (`C16_newWith_refines`) — and differs from it only in the
+`format` field: its `String()` is `format` applied to the member slice as stored, that of the plain
+constructors' result is `format.go`'s `{a, b, c}`. -/
+theorem C16_newWithFormat_refines {α : Type} [DecidableEq α] {impl : Impl α} (hl : ImplLaw (fun _ => True) Eq impl)
+    (format : StringFormat α) (pv : α → String) (vals : List α) :
+    ∃ s, MSet.newWith impl vals = .ok s ∧
+      FmtSet.newWithFormat impl format vals = .ok ⟨s, format⟩ ∧
+      FmtSet.new pv impl vals = .ok ⟨s, defaultStringFormat pv⟩ ∧
+      WF0 s ∧ s.impl = impl ∧ FSet.Equiv s.members (FSet.insertAll FSet.empty vals) ∧
+      (FmtSet.mk s format).string = format s.members ∧
+      (FmtSet.mk s (defaultStringFormat pv)).string = s.string pv := by
+  obtain ⟨s, h₁, hw, hi, he⟩ := C16_newWith_refines hl vals
+  have h₂ : (MSet.new impl).add vals = .ok s := h₁
+  refine ⟨s, h₁, ?_, ?_, hw, hi, he, rfl, rfl⟩
+  · simp [FmtSet.newWithFormat, FmtSet.add, h₂]
+  · simp [FmtSet.new, FmtSet.add, h₂]
+
+example : ∃ s, FmtSet.newWithFormat (.sorted Driver.cmpDesc) (fun ms => toString ms.length) [5, 2, 5, 7] = .ok ⟨s, fun ms => toString ms.length⟩ ∧
+    WF0 s ∧ FSet.Equiv s.members (FSet.insertAll FSet.empty [5, 2, 5, 7]) := by
+  obtain ⟨s, _, h, _, hw, _, he, _⟩ := C16_newWithFormat_refines (impl := .sorted Driver.cmpDesc) cmpDesc_law
+    (fun ms => toString ms.length) Driver.pvI [5, 2, 5, 7]
+  exact ⟨s, h, hw, he⟩
+
+/-- **The format of a result is the receiver's.**  `Clone` and `CloneEmpty` copy the format; `Add`, `Remove`,
+`RemoveAll` keep it; `Union`, `Intersection`, `Difference` (any number of operands carrying any formats),
+`SelectMatch` and `PartitionMatch` return objects with the receiver's format.  Each of these calls computes the
+member slice the functional Model computes (`C16_format_is_ghost_state`), so together with the theorems above:
+`String()` of a result is the receiver's format applied to the set the set-algebra theorems describe. -/
+theorem C16_format_of_result_is_receivers {α σ : Type} (sh : Shuffle σ) (s : FmtSet α) (sets : List (FmtSet α))
+    (vs : List α) (p : α → Bool) (g : σ) :
+    s.clone.format = s.format ∧ s.cloneEmpty.format = s.format ∧ s.removeAll.format = s.format ∧
+    (∀ t, s.add vs = .ok t → t.format = s.format) ∧
+    (∀ t, s.remove vs = .ok t → t.format = s.format) ∧
+    (∀ t g', s.union sh sets g = .ok (t, g') → t.format = s.format) ∧
+    (∀ t, s.intersection sets = .ok t → t.format = s.format) ∧
+    (∀ t g', s.difference sh sets g = .ok (t, g') → t.format = s.format) ∧
+    (∀ t, s.selectMatch p = .ok t → t.format = s.format) ∧
+    (∀ t u, s.partitionMatch p = .ok (t, u) → t.format = s.format ∧ u.format = s.format) :=
+  ⟨rfl, rfl, rfl, fun _ h => FmtSet.add_format h, fun _ h => FmtSet.remove_format h,
+    fun _ _ h => FmtSet.union_format h, fun _ h => FmtSet.intersection_format h,
+    fun _ _ h => FmtSet.difference_format h, fun _ h => FmtSet.selectMatch_format h,
+    fun _ _ h => FmtSet.partitionMatch_format h⟩
+
+/-- a stable receiver made with a custom format, operands with two other formats: the union prints in the
+receiver's -/
+example : ∃ t g', (FmtSet.mk exStable (fun ms => "<" ++ toString ms.length ++ ">")).union revShuffle
+      [⟨exUnordered, defaultStringFormat Driver.pvI⟩, ⟨exDesc, fun _ => "?"⟩] () = .ok (t, g') ∧
+    t.string = "<" ++ toString t.set.members.length ++ ">" ∧
+    FSet.Equiv t.set.members (FSet.unionAll exStable.members [exUnordered.members, exDesc.members]) := by
+  obtain ⟨t, g', h, _, _, he⟩ := C16_union_spec revShuffle_law exStable_wf [exUnordered, exDesc] (by
+    intro u hu; simp at hu; rcases hu with rfl | rfl
+    · exact exUnordered_wf
+    · exact exDesc_wf) ()
+  have hx := FmtSet.union_set revShuffle (FmtSet.mk exStable (fun ms => "<" ++ toString ms.length ++ ">"))
+    [⟨exUnordered, defaultStringFormat Driver.pvI⟩, ⟨exDesc, fun _ => "?"⟩] ()
+  simp only [List.map_cons, List.map_nil] at hx
+  rw [h] at hx
+  cases hu : (FmtSet.mk exStable (fun ms => "<" ++ toString ms.length ++ ">")).union revShuffle
+      [⟨exUnordered, defaultStringFormat Driver.pvI⟩, ⟨exDesc, fun _ => "?"⟩] () with
+  | ok r =>
+    rw [hu] at hx
+    obtain ⟨t', g''⟩ := r
+    simp only [map_ok, Outcome.ok.injEq, Prod.mk.injEq] at hx
+    obtain ⟨rfl, _⟩ := hx
+    refine ⟨t', g'', rfl, ?_, he⟩
+    simp only [FmtSet.string, FmtSet.union_format hu]
+  | panic => rw [hu] at hx; cases hx
+  | diverge => rw [hu] at hx; cases hx
+
+/-- **The format is ghost state.**  For any shuffle, any `%v`, any state of the register machine with formats
+(any set objects carrying any format functions) and any operation, forgetting the formats and the `String()`
+column of the step gives exactly the step of the functional register machine on the state with the formats
+forgotten — same outcome (ok / panic / diverge), same registers, same shuffle state, same observation.  And for
+every history, including the constructors with initial values and a format and `String()` calls
+(`OpX.lower`: such a constructor is `New` followed by `Add(vals...)`, `String()` is no operation), the final
+state with the formats forgotten is the final state of the functional machine.  Hence no format function can
+influence a member slice, and every theorem of this file about histories of the functional Model is a theorem
+about histories of sets with formats. -/
+theorem C16_format_is_ghost_state {α σ : Type} (sh : Shuffle σ) (pv : α → String) (st : StateX α σ) :
+    (∀ op : Op α, (stepX sh pv st (.base op)).map (fun r => (eraseX r.1, r.2.1)) = stepOp sh (eraseX st) op) ∧
+    (∀ ops : List (OpX α), (runX sh pv ops st).map (fun r => eraseX r.1) =
+      (runOps sh (ops.flatMap OpX.lower) (eraseX st)).map (·.1)) :=
+  ⟨stepX_erase sh pv st, fun ops => runX_lower sh pv ops st⟩
+
+/-- **Every finite history of sets with formats.**  Start from any file of freshly constructed sets of any mix
+of the three implementations (lawful callbacks), each with any format function, and run any list of operations —
+those of `C16_history_refines`, the constructors `New…(callback, vals...)` and `New…WithFormat(callback, format,
+vals...)` with any format function, and `String()` — with any lawful shuffle: the machine never panics or
+diverges, and in the final state every register holds a valid set object denoting the abstract set the lowered
+history computes on `Spec.srun`. -/
+theorem C16_history_with_formats_refines {α σ : Type} [DecidableEq α] {sh : Shuffle σ} (hsh : ShLaw sh) (pv : α → String)
+    (init : List (Impl α × StringFormat α)) (hinit : ∀ p ∈ init, ImplLaw (fun _ => True) Eq p.1)
+    (ops : List (OpX α)) (hops : ∀ op ∈ ops.flatMap OpX.lower, op.Lawful) (g : σ) :
+    ∃ st' out, runX sh pv ops (init.map (fun p => ⟨MSet.new p.1, p.2⟩), g) = .ok (st', out) ∧
+      Rel (st'.1.map (·.set)) (srun ((ops.flatMap OpX.lower).map Op.abs) (init.map fun _ => FSet.empty)).1 := by
+  obtain ⟨regs', g', obs, h₁, h₂, _⟩ := C16_history_refines hsh (init.map (·.1))
+    (by intro impl hi; obtain ⟨p, hp, rfl⟩ := List.mem_map.1 hi; exact hinit p hp)
+    (ops.flatMap OpX.lower) hops g
+  have he := runX_lower sh pv ops (init.map (fun p => (⟨MSet.new p.1, p.2⟩ : FmtSet α)), g)
+  have hst : eraseX (init.map (fun p => (⟨MSet.new p.1, p.2⟩ : FmtSet α)), g) = ((init.map (·.1)).map MSet.new, g) := by
+    simp [eraseX, List.map_map, Function.comp_def]
+  rw [hst, h₁] at he
+  simp only [List.map_map, Function.comp_def] at h₂
+  cases hx : runX sh pv ops (init.map (fun p => (⟨MSet.new p.1, p.2⟩ : FmtSet α)), g) with
+  | ok r =>
+    rw [hx] at he
+    simp only [map_ok, Outcome.ok.injEq] at he
+    refine ⟨r.1, r.2, rfl, ?_⟩
+    have : r.1.1.map (·.set) = regs' := by
+      have := congrArg Prod.fst he
+      simpa [eraseX] using this
+    rw [this]
+    exact h₂
+  | panic => rw [hx] at he; cases he
+  | diverge => rw [hx] at he; cases he
+
+example : ∃ st' out,
+    runX revShuffle Driver.pvI
+      [.newWithFormat 0 (.unordered Driver.eqI) (fun ms => toString ms.length) [3, 1, 3], .base (.add 1 [1, 2]),
+        .base (.union 2 0 [1, 0]), .string 2, .base (.equal 2 1)]
+      ([(Impl.unordered Driver.eqI, defaultStringFormat Driver.pvI), (.sorted Driver.cmpDesc, fun _ => "x"),
+        (.stable Driver.eqI, defaultStringFormat Driver.pvI)].map (fun p => ⟨MSet.new p.1, p.2⟩), ()) = .ok (st', out) := by
+  obtain ⟨st', out, h, _⟩ := C16_history_with_formats_refines revShuffle_law Driver.pvI
+    [(Impl.unordered Driver.eqI, defaultStringFormat Driver.pvI), (.sorted Driver.cmpDesc, fun _ => "x"),
+      (.stable Driver.eqI, defaultStringFormat Driver.pvI)]
+    (by intro p h; simp at h; rcases h with rfl | rfl | rfl
+        · exact eqI_law
+        · exact cmpDesc_law
+        · exact eqI_law)
+    [.newWithFormat 0 (.unordered Driver.eqI) (fun ms => toString ms.length) [3, 1, 3], .base (.add 1 [1, 2]),
+      .base (.union 2 0 [1, 0]), .string 2, .base (.equal 2 1)]
+    (by intro op h; simp [OpX.lower] at h; rcases h with rfl | rfl | rfl | rfl | rfl
+        · exact eqI_law
+        all_goals trivial) ()
+  exact ⟨st', out, h⟩
+
+/-- `Powerset(s)` / `Partitions(s)` of a set with a format, as `Model/C16X.lean` has them: the member sets
+(blocks) are exactly those of the functional Model (so `C16_powerset_exact` / `C16_partitions_exact` describe
+them), each carrying the format of `s`; the containers carry the default format over the members' own
+`String()`.  (In the Model this is how the formats are attached — the rule follows from the Go code building
+every member by `s.CloneEmpty()`, `head.Clone()`, `head.Union(…)`, cf. `C16_format_of_result_is_receivers`;
+it is compared with `Powerset(s).String()` / `Partitions(s).String()` of the Go code on every run.) -/
+theorem C16_format_of_powerset_members {α σ : Type} (sh : Shuffle σ) (s : FmtSet α) (g : σ) :
+    (∀ PS g', s.powerset sh g = .ok (PS, g') →
+      (∃ PS₀, s.set.powerset sh g = .ok (PS₀, g') ∧ PS.set.members.map (·.set) = PS₀.members) ∧
+      (∀ T ∈ PS.set.members, T.format = s.format) ∧ PS.format = defaultStringFormat FmtSet.string) ∧
+    (∀ Ps g', s.partitions sh g = .ok (Ps, g') →
+      (∃ Ps₀, s.set.partitions sh g = .ok (Ps₀, g') ∧
+        Ps.set.members.map (fun P => P.set.members.map (·.set)) = Ps₀.members.map (·.members)) ∧
+      (∀ P ∈ Ps.set.members, P.format = defaultStringFormat FmtSet.string ∧ ∀ B ∈ P.set.members, B.format = s.format) ∧
+      Ps.format = defaultStringFormat FmtSet.string) := by
+  refine ⟨?_, ?_⟩
+  · intro PS g' h
+    simp only [FmtSet.powerset] at h
+    cases hp : s.set.powerset sh g with
+    | ok r =>
+      obtain ⟨PS₀, g₀⟩ := r
+      rw [hp] at h
+      simp only [ok_bind, pure_eq_ok, Outcome.ok.injEq, Prod.mk.injEq] at h
+      obtain ⟨rfl, rfl⟩ := h
+      refine ⟨⟨PS₀, rfl, by simp [List.map_map, Function.comp_def]⟩, ?_, rfl⟩
+      intro T hT
+      obtain ⟨m, _, rfl⟩ := List.mem_map.1 hT
+      rfl
+    | panic => rw [hp] at h; cases h
+    | diverge => rw [hp] at h; cases h
+  · intro Ps g' h
+    simp only [FmtSet.partitions] at h
+    cases hp : s.set.partitions sh g with
+    | ok r =>
+      obtain ⟨Ps₀, g₀⟩ := r
+      rw [hp] at h
+      simp only [ok_bind, pure_eq_ok, Outcome.ok.injEq, Prod.mk.injEq] at h
+      obtain ⟨rfl, rfl⟩ := h
+      refine ⟨⟨Ps₀, rfl, by simp [List.map_map, Function.comp_def]⟩, ?_, rfl⟩
+      intro P hP
+      obtain ⟨Q, _, rfl⟩ := List.mem_map.1 hP
+      refine ⟨rfl, ?_⟩
+      intro B hB
+      obtain ⟨b, _, rfl⟩ := List.mem_map.1 hB
+      rfl
+    | panic => rw [hp] at h; cases h
+    | diverge => rw [hp] at h; cases h
+
+example : ∃ PS g', (FmtSet.mk exAsc (fun ms => toString ms.length)).powerset revShuffle () = .ok (PS, g') ∧
+    PS.set.members.length = 2 ^ 3 ∧ ∀ T ∈ PS.set.members, T.string = toString T.set.members.length := by
+  obtain ⟨PS₀, g', h, _, _, _, hc⟩ := C16_powerset_exact revShuffle_law exAsc_wf ()
+  have hx : (FmtSet.mk exAsc (fun ms => toString ms.length)).powerset revShuffle () =
+      .ok (⟨⟨.unordered fmtSetEqFunc, PS₀.members.map fun m => ⟨m, fun ms => toString ms.length⟩⟩,
+        defaultStringFormat FmtSet.string⟩, g') := by
+    simp [FmtSet.powerset, h]
+  refine ⟨_, g', hx, by simp only [List.length_map]; exact hc, ?_⟩
+  intro T hT
+  have := ((C16_format_of_powerset_members revShuffle (FmtSet.mk exAsc (fun ms => toString ms.length)) ()).1 _ _ hx).2.1 T hT
+  simp only [FmtSet.string, this]
